@@ -2,6 +2,7 @@
   C19 — Macro-generated code means what the hand-written code would.
 -/
 import Rsactor.Macro
+import Rsactor.Inv.TellRes
 import Rsactor.Ties.macro_options_shape
 import Rsactor.Ties.macro_templates_shape
 import Rsactor.Ties.handle_message_shape
@@ -98,6 +99,31 @@ theorem non_result_logs_nothing (t : RetTy) (ar : Bool) (h : lastIsResult t = fa
 theorem result_spelling_logs (t : RetTy) (h : lastIsResult t = true) :
     decision .path (some t) true = .impl true := by
   rw [decision_table]; simp [spec, h]
+
+/-! ### the runtime half: on_tell_result once after a tell, never after an ask -/
+section runtime
+open Rsactor.Model Rsactor.Monitor
+
+/-- `tell_result_adjacent`: in every run, a handler that returns is followed at once by exactly one of
+    `tellResult m` (on_tell_result was invoked) / `replySent m`, and neither event occurs anywhere else:
+    on_tell_result is never invoked twice, never without the handler having returned, never for a handler
+    that panicked. -/
+theorem tell_result_adjacent (cap : Nat) (sc : Script) (ls : List Label) (s : Sys)
+    (hr : run? (init cap sc) ls = some s) : C19.accepts s.ev = true := by
+  have h := run_inv TRInv_step (init cap sc) s ls (TRInv_init cap sc) hr
+  unfold TRInv trFold at h
+  unfold C19.accepts
+  rw [h]; rfl
+
+/-- `result_follows_kind`: which of the two it is is decided by the kind of the envelope being handled:
+    a tell gets on_tell_result and no reply, an ask gets its reply and no on_tell_result. -/
+theorem result_follows_kind (s : Sys) (mid : Nat) (k : Kind) (hpc : s.pc = .inHandler mid k)
+    (hg : 0 < s.gatePermits) (hok : (s.spec mid).hout = .ok) :
+    ∃ s', Model.step? s .handlerDone = some s' ∧
+      s'.ev = s.ev ++ [.handlerEnd mid .ok, match k with | .tell => .tellResult mid | .ask => .replySent mid] := by
+  cases k <;> simp [Model.step?, hpc, hg, hok]
+
+end runtime
 
 -- non-vacuity: `std::fmt::Result` (bare, no type arguments) is a Result return; an alias is not
 example : decision .path (some (.path [.other, .other, .result])) true = .impl true ∧
